@@ -160,31 +160,54 @@ package utils
 // Assumption (holds for httputil.ReverseProxy, the only handler the agent installs): the field name behind
 // http.TrailerPrefix is in canonical form.
 //@ pure prefixedCanon(h ref) bool = forall_str(k, in(k, h) && hasPrefix(k, "Trailer:") ==> canon(cutPrefix(k, "Trailer:")) == cutPrefix(k, "Trailer:"))
+//@ pure tlen(m ref, t string) int = ite(in(t, m), len(asHeader(m)[t]), 0)
+//@ pure pk(t string) string = "Trailer:" + t
 //@ func (*streamingResponseWriter).Close props(C03,C07)
 //@   requires w != nil && w.r != nil && w.header != nil && canonKeys(w.header) && prefixedCanon(w.header) && w.respChan != nil && !closed(w.respChan) && w.bodyReader != nil && w.bodyWriter != nil && w.trailer != nil && w.trailer != w.header
 //@   requires w.wroteHeader ==> canonKeys(w.trailer) && forall_str(t, in(t, w.trailer) ==> !mayDrop(t))
 //@   ghost closes int = 0
+//@   ghost vals []string
+//@   call (http.Header).Values
+//@     assert[C03:declared-trailer-values-read-from-the-handler-map] arg0 == w.header && arg1 == k && inloop == 1
+//@     do vals = ret0
+//@   call (http.Header).Add
+//@     assert[C03:trailer-values-copied-in-order] arg0 == w.trailer && arg1 == k && (inloop == 2 || inloop == 4) && 0 <= idx
+//@     |   && (inloop == 2 ==> idx < len(vals) && arg2 == vals[idx])
+//@     |   && (inloop == 4 ==> in(pk(k), w.header) && idx < len(w.header[pk(k)]) && arg2 == w.header[pk(k)][idx])
 //@   call (*io.PipeWriter).Close
 //@     assert[C03:eof-after-trailers] closes == 0 && arg0 == w.bodyWriter
 //@     assert[C03:no-hop-by-hop-trailers] forall_str(t, mustDrop(t) ==> !in(t, w.trailer))
+//@     assert[C03:every-trailer-value-collected] forall_str(t, tlen(w.trailer, t) == preOf(1, tlen(w.trailer, t)) + ite(preOf(1, in(t, w.trailer)), tlen(w.header, t), 0) + ite(in(pk(t), w.header) && !mayDrop(t), tlen(w.header, pk(t)), 0))
 //@     do closes = closes + 1
 //@   ensures[C03:body-closed-once] closes == 1
 //@   loop 1
 //@     assigns mapof(w.trailer)
 //@     invariant[C03:c1] w.trailer != nil && w.header != nil && w.trailer != w.header && w.bodyWriter == old(w.bodyWriter) && canonKeys(w.trailer) && canonKeys(w.header) && prefixedCanon(w.header) && closes == 0
 //@     invariant[C03:c1-nohop] forall_str(t, in(t, w.trailer) ==> !mayDrop(t))
+//@     invariant[C03:c1-keys] forall_str(t, in(t, w.trailer) <==> pre(in(t, w.trailer)))
+//@     invariant[C03:c1-visited] forall_str(t, visited[t] ==> in(t, w.trailer))
+//@     invariant[C03:c1-counts] forall_str(t, tlen(w.trailer, t) == pre(tlen(w.trailer, t)) + ite(visited[t], tlen(w.header, t), 0))
 //@   loop 2
 //@     assigns mapof(w.trailer)
-//@     invariant[C03:c2] w.trailer != nil && w.header != nil && w.trailer != w.header && w.bodyWriter == old(w.bodyWriter) && canonKeys(w.trailer) && canonKeys(w.header) && prefixedCanon(w.header) && closes == 0 && in(k, w.trailer)
+//@     invariant[C03:c2] w.trailer != nil && w.header != nil && w.trailer != w.header && w.bodyWriter == old(w.bodyWriter) && canonKeys(w.trailer) && canonKeys(w.header) && prefixedCanon(w.header) && closes == 0 && in(k, w.trailer) && visited[k]
 //@     invariant[C03:c2-nohop] forall_str(t, in(t, w.trailer) ==> !mayDrop(t))
+//@     invariant[C03:c2-keys] forall_str(t, in(t, w.trailer) <==> preOf(1, in(t, w.trailer)))
+//@     invariant[C03:c2-others] forall_str(t, t != k ==> tlen(w.trailer, t) == preOf(1, tlen(w.trailer, t)) + ite(visited[t], tlen(w.header, t), 0))
+//@     invariant[C03:c2-this] tlen(w.trailer, k) == preOf(1, tlen(w.trailer, k)) + idx + 1
+//@     invariant[C03:c2-source] len(vals) == tlen(w.header, k) && (in(k, w.header) ==> vals == w.header[k])
 //@   loop 3
 //@     assigns mapof(w.trailer)
 //@     invariant[C03:c3] w.trailer != nil && w.header != nil && w.trailer != w.header && w.bodyWriter == old(w.bodyWriter) && canonKeys(w.trailer) && canonKeys(w.header) && prefixedCanon(w.header) && closes == 0
 //@     invariant[C03:c3-nohop] forall_str(t, in(t, w.trailer) ==> !mayDrop(t))
+//@     invariant[C03:c3-visited] forall_str(x, visited[x] ==> in(x, w.header))
+//@     invariant[C03:c3-counts] forall_str(t, tlen(w.trailer, t) == pre(tlen(w.trailer, t)) + ite(visited[pk(t)] && !mayDrop(t), tlen(w.header, pk(t)), 0))
 //@   loop 4
 //@     assigns mapof(w.trailer)
 //@     invariant[C03:c4] w.trailer != nil && w.header != nil && w.trailer != w.header && w.bodyWriter == old(w.bodyWriter) && canonKeys(w.trailer) && canonKeys(w.header) && prefixedCanon(w.header) && closes == 0 && canon(k) == k && !mayDrop(k)
 //@     invariant[C03:c4-nohop] forall_str(t, in(t, w.trailer) ==> !mayDrop(t))
+//@     invariant[C03:c4-source] visited[pk(k)] && in(pk(k), w.header) && vs == w.header[pk(k)]
+//@     invariant[C03:c4-others] forall_str(t, t != k ==> tlen(w.trailer, t) == preOf(3, tlen(w.trailer, t)) + ite(visited[pk(t)] && !mayDrop(t), tlen(w.header, pk(t)), 0))
+//@     invariant[C03:c4-this] tlen(w.trailer, k) == preOf(3, tlen(w.trailer, k)) + idx + 1
 
 
 //@ func newBufferedReadSeeker props(C06,C07)
